@@ -42,3 +42,15 @@ Check C07_end_to_end : forall (o : opts) (now : Z) (s : state) (line : list N) (
 Print Assumptions C07_end_to_end.
 
 
+
+(** ---- over ALL histories ---- *)
+From SQ Require Import Base Table Update Ia5 TableProofs LatestWins.
+Local Open Scope N_scope.
+
+(** the callsign column after any stream equals the reference fold (latest TC 1-4 squitter wins) at every aircraft that received no DF18/20/21 frame *)
+Theorem C07_latest_wins : forall o : opts, (0 < delete_after o)%Z -> forall (now : Z) (s : state) (ls : list (option (list N))) (s' : state), run_lines o now s ls = Ok s' -> NoDup (keys (tbl s)) -> forall a : N, (forall l : option (list N), In l ls -> cs_wild_line o a l = false) -> option_map r_ais (lookup (tbl s') a) = rlookup (cs_ref_run o (proj r_ais (tbl s)) (history o now s ls)) a.
+Proof. exact callsign_latest_wins. Qed.
+Check C07_latest_wins : forall o : opts, (0 < delete_after o)%Z -> forall (now : Z) (s : state) (ls : list (option (list N))) (s' : state), run_lines o now s ls = Ok s' -> NoDup (keys (tbl s)) -> forall a : N, (forall l : option (list N), In l ls -> cs_wild_line o a l = false) -> option_map r_ais (lookup (tbl s') a) = rlookup (cs_ref_run o (proj r_ais (tbl s)) (history o now s ls)) a.
+Print Assumptions C07_latest_wins.
+
+
